@@ -34,4 +34,10 @@ func init() {
 	add("C19",
 		Mutant{Name: "dictionary-larger-than-column-refused", File: "proto/col_low_cardinality.go", Old: "\tif err := checkRows(int(indexRows)); err != nil {\n\t\treturn errors.Wrap(err, \"index size\")\n\t}\n", New: "\tif err := checkRows(int(indexRows)); err != nil {\n\t\treturn errors.Wrap(err, \"index size\")\n\t}\n\tif int(indexRows) > rows {\n\t\treturn errors.Errorf(\"index size %d is greater than rows count %d\", indexRows, rows)\n\t}\n", Rule: "C19.dict-rows", Construct: "ColLowCardinality"},
 	)
+	add("C05",
+		Mutant{Name: "external-table-written-on-its-own-path", File: "query.go", Old: "\t\tif err := c.encodeBlock(ctx, q.ExternalTable, q.ExternalData); err != nil {", New: "\t\tc.writer.ChainBuffer(func(buf *proto.Buffer) {\n\t\t\tproto.ClientCodeData.Encode(buf)\n\t\t\tcd := proto.ClientData{TableName: q.ExternalTable}\n\t\t\tcd.EncodeAware(buf, c.protocolVersion)\n\t\t})\n\t\tif err := (proto.Block{Columns: len(q.ExternalData), Rows: q.ExternalData[0].Data.Rows()}).WriteBlock(c.writer, c.protocolVersion, q.ExternalData); err != nil {", Rule: "C05.block-path", Construct: "sendQuery"},
+	)
+	add("C19",
+		Mutant{Name: "enum-absence-read-off-the-name", File: "proto/col_enum.go", Old: "\t\ts, ok := mapping[int(v)]\n\t\tif !ok {", New: "\t\ts := mapping[int(v)]\n\t\tif s == \"\" {", Rule: "C19.enum-sentinel", Construct: "appendEnum"},
+	)
 }
